@@ -65,4 +65,52 @@ theorem dyadic_double_3_3_overrun (fo : FOps) (a b out : Reg) :
     lane64 (avx2.h_dyadic_double_3_3 fo a b out) 9 = fo.mul64 (lane64 a 2) (lane64 b 3) := by
   simp [simd, avx2.h_dyadic_double_3_3, lane64]
 
+-- ------------------------------------------------------------------------------------------------ complex interleave <-> split
+
+/-- memory image of two consecutive registers of `n` 32-bit lanes -/
+def cat (n : Nat) (lo hi : Reg) : Reg := fun w => if w < n then lo w else hi (w - n)
+
+/-- complex<float> SSE load: the two loaded registers hold (re0,im0,re1,im1 | re2,im2,re3,im3); after `arrange_from_load`
+    lane k of value_r / value_i is the real / imaginary part of element k -/
+theorem split_ps128 (vr vi lo hi : Reg) (k : Nat) (hk : k < 4) :
+    (avx2.h_arrange_from_load vr vi lo hi).1 k = cat 4 lo hi (2 * k) ∧ (avx2.h_arrange_from_load vr vi lo hi).2 k = cat 4 lo hi (2 * k + 1) := by
+  interval_cases k <;> simp [simd, avx2.h_arrange_from_load, cat]
+theorem interleave_ps128 (lo hi vr vi : Reg) (w : Nat) (hw : w < 8) :
+    cat 4 (avx2.h_arrange_for_store lo hi vr vi).1 (avx2.h_arrange_for_store lo hi vr vi).2 w = (if w % 2 = 0 then vr (w / 2) else vi (w / 2)) := by
+  interval_cases w <;> simp [simd, avx2.h_arrange_for_store, cat]
+/-- store after load is the identity on memory (round trip) -/
+theorem roundtrip_ps128 (vr vi lo hi x y : Reg) (w : Nat) (hw : w < 4) :
+    (avx2.h_arrange_for_store x y (avx2.h_arrange_from_load vr vi lo hi).1 (avx2.h_arrange_from_load vr vi lo hi).2).1 w = lo w ∧
+    (avx2.h_arrange_for_store x y (avx2.h_arrange_from_load vr vi lo hi).1 (avx2.h_arrange_from_load vr vi lo hi).2).2 w = hi w := by
+  interval_cases w <;> simp [simd, avx2.h_arrange_for_store, avx2.h_arrange_from_load]
+
+theorem split_ps256 (vr vi lo hi : Reg) (k : Nat) (hk : k < 8) :
+    (avx2.h_arrange_from_load_m256 vr vi lo hi).1 k = cat 8 lo hi (2 * k) ∧ (avx2.h_arrange_from_load_m256 vr vi lo hi).2 k = cat 8 lo hi (2 * k + 1) := by
+  interval_cases k <;> simp [simd, avx2.h_arrange_from_load_m256, cat]
+theorem interleave_ps256 (lo hi vr vi : Reg) (w : Nat) (hw : w < 16) :
+    cat 8 (avx2.h_arrange_for_store_m256 lo hi vr vi).1 (avx2.h_arrange_for_store_m256 lo hi vr vi).2 w = (if w % 2 = 0 then vr (w / 2) else vi (w / 2)) := by
+  interval_cases w <;> simp [simd, avx2.h_arrange_for_store_m256, cat]
+theorem roundtrip_ps256 (vr vi lo hi x y : Reg) (w : Nat) (hw : w < 8) :
+    (avx2.h_arrange_for_store_m256 x y (avx2.h_arrange_from_load_m256 vr vi lo hi).1 (avx2.h_arrange_from_load_m256 vr vi lo hi).2).1 w = lo w ∧
+    (avx2.h_arrange_for_store_m256 x y (avx2.h_arrange_from_load_m256 vr vi lo hi).1 (avx2.h_arrange_from_load_m256 vr vi lo hi).2).2 w = hi w := by
+  interval_cases w <;> simp [simd, avx2.h_arrange_for_store_m256, avx2.h_arrange_from_load_m256]
+
+/-- complex<double>: 64-bit elements; word w of memory belongs to element w/2 -/
+theorem split_pd128 (vr vi lo hi : Reg) (w : Nat) (hw : w < 4) :
+    (avx2.h_arrange_from_load_m128d vr vi lo hi).1 w = cat 4 lo hi (4 * (w / 2) + w % 2) ∧
+    (avx2.h_arrange_from_load_m128d vr vi lo hi).2 w = cat 4 lo hi (4 * (w / 2) + 2 + w % 2) := by
+  interval_cases w <;> simp [simd, avx2.h_arrange_from_load_m128d, cat]
+theorem roundtrip_pd128 (vr vi lo hi x y : Reg) (w : Nat) (hw : w < 4) :
+    (avx2.h_arrange_for_store_m128d x y (avx2.h_arrange_from_load_m128d vr vi lo hi).1 (avx2.h_arrange_from_load_m128d vr vi lo hi).2).1 w = lo w ∧
+    (avx2.h_arrange_for_store_m128d x y (avx2.h_arrange_from_load_m128d vr vi lo hi).1 (avx2.h_arrange_from_load_m128d vr vi lo hi).2).2 w = hi w := by
+  interval_cases w <;> simp [simd, avx2.h_arrange_for_store_m128d, avx2.h_arrange_from_load_m128d]
+theorem split_pd256 (vr vi lo hi : Reg) (w : Nat) (hw : w < 8) :
+    (avx2.h_arrange_from_load_m256d vr vi lo hi).1 w = cat 8 lo hi (4 * (w / 2) + w % 2) ∧
+    (avx2.h_arrange_from_load_m256d vr vi lo hi).2 w = cat 8 lo hi (4 * (w / 2) + 2 + w % 2) := by
+  interval_cases w <;> simp [simd, avx2.h_arrange_from_load_m256d, cat]
+theorem roundtrip_pd256 (vr vi lo hi x y : Reg) (w : Nat) (hw : w < 8) :
+    (avx2.h_arrange_for_store_m256d x y (avx2.h_arrange_from_load_m256d vr vi lo hi).1 (avx2.h_arrange_from_load_m256d vr vi lo hi).2).1 w = lo w ∧
+    (avx2.h_arrange_for_store_m256d x y (avx2.h_arrange_from_load_m256d vr vi lo hi).1 (avx2.h_arrange_from_load_m256d vr vi lo hi).2).2 w = hi w := by
+  interval_cases w <;> simp [simd, avx2.h_arrange_for_store_m256d, avx2.h_arrange_from_load_m256d]
+
 end Fastor.C08K
